@@ -119,7 +119,10 @@ func (o *OpenAPI3Importer) convertSpec(spec *openapi3.T) (string, error) {
 
 	// Convert types
 	o.types = TypeList{}
-	for name, ref := range spec.Components.Schemas {
+	// Walk every map of the document in key order: types are registered first
+	// come first served, so the result must not depend on map iteration.
+	for _, name := range utils.OrderedKeys(spec.Components.Schemas) {
+		ref := spec.Components.Schemas[name]
 		sName := getSyslSafeName(name)
 		if _, found := o.types.Find(sName); !found {
 			if ref.Value == nil {
@@ -139,7 +142,9 @@ func (o *OpenAPI3Importer) convertSpec(spec *openapi3.T) (string, error) {
 	for _, k := range methodDisplayOrder {
 		endpoints[k] = nil
 	}
-	for path, ep := range spec.Paths.Map() {
+	pathItems := spec.Paths.Map()
+	for _, path := range utils.OrderedKeys(pathItems) {
+		ep := pathItems[path]
 		meps, err := o.buildEndpoint(path, ep)
 		if err != nil {
 			return "", err
@@ -230,6 +235,7 @@ func attrsForArray(schema *openapi3.Schema) []string {
 			attrs = append(attrs, fmt.Sprintf(`%s="%s"`, name, val))
 		}
 	}
+	sort.Strings(attrs)
 	return attrs
 }
 
@@ -249,6 +255,7 @@ func attrsForString(schema *openapi3.Schema) []string {
 			attrs = append(attrs, fmt.Sprintf(`%s="%s"`, name, val))
 		}
 	}
+	sort.Strings(attrs)
 	return attrs
 }
 
@@ -511,7 +518,8 @@ func (o *OpenAPI3Importer) loadTypeSchema(name string, schema *openapi3.Schema) 
 			}
 		}
 
-		for fname, prop := range schema.Properties {
+		for _, fname := range utils.OrderedKeys(schema.Properties) {
+			prop := schema.Properties[fname]
 			f, err := o.buildField(fname, prop)
 			if err != nil {
 				return nil, err
@@ -576,7 +584,8 @@ func (o *OpenAPI3Importer) buildEndpoint(path string, item *openapi3.PathItem) (
 		return nil, err
 	}
 
-	for method, op := range ops {
+	for _, method := range utils.OrderedKeys(ops) {
+		op := ops[method]
 		if op == nil {
 			continue
 		}
@@ -599,7 +608,9 @@ func (o *OpenAPI3Importer) buildEndpoint(path string, item *openapi3.PathItem) (
 			return nil, err
 		}
 
-		for statusCode, resp := range op.Responses.Map() {
+		responses := op.Responses.Map()
+		for _, statusCode := range utils.OrderedKeys(responses) {
+			resp := responses[statusCode]
 			err = o.buildResponses(statusCode, resp, method, path, op, ep)
 			if err != nil {
 				return nil, err
@@ -630,12 +641,14 @@ func (o *OpenAPI3Importer) buildRequests(req *openapi3.RequestBodyRef, ep *Endpo
 		fields[tname][mediaType] = obj
 	}
 
-	for _, content := range fields {
+	for _, tname := range utils.OrderedKeys(fields) {
+		content := fields[tname]
 		mtType := mtReq
 		if len(content) > 1 {
 			mtType = mtMultiReq
 		}
-		for mediaType, obj := range content {
+		for _, mediaType := range utils.OrderedKeys(content) {
+			obj := content[mediaType]
 			field, err := o.fieldForMediaType(mediaType, obj, mtType)
 			if err != nil {
 				return err
@@ -676,12 +689,14 @@ func (o *OpenAPI3Importer) buildResponses(
 		fields[tname][mediaType] = obj
 	}
 
-	for _, content := range fields {
+	for _, tname := range utils.OrderedKeys(fields) {
+		content := fields[tname]
 		mtType := mtResp
 		if len(content) > 1 {
 			mtType = mtMultiResp
 		}
-		for mediaType, obj := range content {
+		for _, mediaType := range utils.OrderedKeys(content) {
+			obj := content[mediaType]
 			f, err := o.fieldForMediaType(mediaType, obj, mtType)
 			if f.Type.Name() == OpenAPI_OBJECT {
 				validOperationID := regexp.MustCompile("^[a-zA-Z_]+$")
